@@ -7,7 +7,7 @@
    H : bytes -> bytes with outputs of the stated length, so in particular for SHA-256 and
    for BLAKE3 truncated to 16 bytes.  "Up to hash collisions" is an explicit disjunct and
    the colliding pair is computed by [find_collision] from the inputs H was applied to. *)
-From LP Require Import Prelude Pay Merkle MerkleProofs.
+From LP Require Import Prelude Pay Semver Merkle MerkleProofs.
 Import ListNotations.
 Local Open Scope N_scope.
 
@@ -138,6 +138,42 @@ Proof. exact tw_roots_immutable. Qed.
 Theorem C14_tiered_roots_immutable_history : forall h s, tw_roots (tw_run h s) = tw_roots s.
 Proof. exact tw_roots_immutable_history. Qed.
 
+(* migrate: accepted exactly when sent by the wasm admin, from the contract's own cw2 name
+   and a stored version that parses and is not newer than the code's (3.16.0); an accepted
+   migrate returns the state untouched, a refused one changes nothing by construction *)
+Theorem C14_migrate_accepted_iff : forall by_admin name_ok ver,
+  merkle_migrate_ok by_admin name_ok ver = true <->
+  by_admin = true /\ name_ok = true /\ exists x, ver = Some x /\ ver_ltb MERKLE_CUR_VERSION x = false.
+Proof. exact merkle_migrate_ok_iff. Qed.
+
+Theorem C14_migrate_is_frame : forall a n v s s', wl_migrate a n v s = Ok s' -> s' = s.
+Proof. exact wl_migrate_frame. Qed.
+
+Theorem C14_tiered_migrate_is_frame : forall a n v s s', tw_migrate a n v s = Ok s' -> s' = s.
+Proof. exact tw_migrate_frame. Qed.
+
+(* no Execute message and no Migrate changes the root(s): single step and whole histories *)
+Theorem C14_root_immutable_step : forall st s s', wl_apply st s = Ok s' -> wl_root s' = wl_root s.
+Proof. exact wl_root_immutable_step. Qed.
+
+Theorem C14_root_immutable_history_with_migrates : forall h s, wl_root (wl_run_steps h s) = wl_root s.
+Proof. exact wl_root_immutable_steps. Qed.
+
+Theorem C14_tiered_roots_immutable_step : forall st s s', tw_apply st s = Ok s' -> tw_roots s' = tw_roots s.
+Proof. exact tw_roots_immutable_step. Qed.
+
+Theorem C14_tiered_roots_immutable_history_with_migrates : forall h s, tw_roots (tw_run_steps h s) = tw_roots s.
+Proof. exact tw_roots_immutable_steps. Qed.
+
+(* so members keep being accepted and non-members rejected across any such history *)
+Theorem C14_has_member_stable_over_histories : forall (H : list N -> list N) h s m p,
+  wl_has_member H (wl_run_steps h s) m p = wl_has_member H s m p.
+Proof. exact wl_has_member_stable. Qed.
+
+Theorem C14_tiered_has_member_stable_over_migrate : forall (H : list N -> list N) a n v s s' now m p,
+  tw_migrate a n v s = Ok s' -> tw_has_member H now s' m p = tw_has_member H now s m p.
+Proof. exact tw_has_member_after_migrate. Qed.
+
 (* ---------------- tiered: the active stage's root only ---------------- *)
 Theorem C14_tiered_uses_active_root : forall (H : list N -> list N) now s m p,
   match active_index now (tw_stages s) with
@@ -265,6 +301,19 @@ Example C14_ex_unreachable_handler_would_change_root :
   end.
 Proof. vm_compute. discriminate. Qed.
 
+(* migrate: from 3.0.0, 3.15.9 and 3.16.0 by the admin accepted; a newer stored version, a
+   foreign cw2 name, an unparsable version or a non-admin refused; roots as before *)
+Example C14_ex_migrate :
+  let s := mkTw [7] true [mkStage 100 200 0 1] [hex_encode (repeat 1 16)] in
+  map (fun c => match c with (a, n, v) => is_ok (tw_migrate a n v s) end)
+      [(true, true, Some (3, 0, 0)); (true, true, Some (3, 15, 9)); (true, true, Some (3, 16, 0));
+       (true, true, Some (3, 16, 1)); (true, true, Some (4, 0, 0)); (true, false, Some (3, 0, 0));
+       (true, true, None); (false, true, Some (3, 0, 0))]
+  = [true; true; true; false; false; false; false; false] /\
+  tw_roots (tw_run_steps [TsMigrate true true (Some (3, 0, 0)); TsExec 50 7 TFreeze;
+                          TsMigrate false true (Some (3, 0, 0))] s) = tw_roots s.
+Proof. vm_compute. split; reflexivity. Qed.
+
 (* tiered: at the shared boundary instant of two adjacent stages the earlier stage wins *)
 Example C14_ex_tiered_boundary :
   let st := [mkStage 100 200 0 1; mkStage 200 300 0 1; mkStage 400 500 0 1] in
@@ -297,6 +346,15 @@ Print Assumptions C14_root_immutable.
 Print Assumptions C14_root_immutable_history.
 Print Assumptions C14_tiered_roots_immutable.
 Print Assumptions C14_tiered_roots_immutable_history.
+Print Assumptions C14_migrate_accepted_iff.
+Print Assumptions C14_migrate_is_frame.
+Print Assumptions C14_tiered_migrate_is_frame.
+Print Assumptions C14_root_immutable_step.
+Print Assumptions C14_root_immutable_history_with_migrates.
+Print Assumptions C14_tiered_roots_immutable_step.
+Print Assumptions C14_tiered_roots_immutable_history_with_migrates.
+Print Assumptions C14_has_member_stable_over_histories.
+Print Assumptions C14_tiered_has_member_stable_over_migrate.
 Print Assumptions C14_tiered_uses_active_root.
 Print Assumptions C14_active_index_is_first_open_stage.
 Print Assumptions C14_no_active_stage.
